@@ -51,7 +51,7 @@ PLAN = {
     "C19": {"level": "exploration", "parts": [dict(ws="real", bin="simreal", engine="diff", quick=160_000, thorough=6_000_000)], "reject": True},
     "C16": {
         "level": "exploration",
-        "parts": [l1(64 * 3456, 2000 * 3456), l2(100_000, 4_000_000)],
+        "parts": [l1(64 * 3456, 2000 * 3456), l2(100_000, 4_000_000), sched(300_000, 15_000_000)],
         "coverage_extra": lambda agg: {
             "configurations_enumerated": len(agg.get("l1", {}).get("states", [])),
             "configuration_product": 3456,
